@@ -2778,3 +2778,84 @@ func (c *Ctx) r1019() {
 	}
 	c.R.Floor(rule, "look-ahead loops inside a token case", n, 3)
 }
+
+// R10.21: a search that is restarted at every position of a loop looks at a bounded window.
+func (c *Ctx) r1021() {
+	const rule = "R10.21"
+	c.R.Rule(rule, "a loop that walks a byte slice with a cursor i and, at some positions, searches forward from i (bytes.IndexByte / Index / IndexAny over b[i:…]) costs the distance searched at each of them. Unless the cursor then jumps to what was found, the same bytes are searched again from the next position: quadratic time — `<a style=\"&&&&…\">` with 400 000 ampersands and no `;` took 2 s in html.decodeAttrVal, which looked for the `;` of a character reference from every `&`. In the library packages every such search inside a loop over the same slice is over a window with an upper bound (b[i:end]), not the open rest b[i:]")
+	n := 0
+	for _, rel := range libPkgs {
+		pk := c.P.Pkg(rel)
+		if pk == nil {
+			continue
+		}
+		info := pk.TypesInfo
+		for _, fd := range load.FuncDecls(pk) {
+			if fd.Body == nil {
+				continue
+			}
+			ast.Inspect(fd.Body, func(x ast.Node) bool {
+				fs, ok := x.(*ast.ForStmt)
+				if !ok {
+					return true
+				}
+				// cursor: a variable incremented by the post statement or in the body, compared with len(S) in the condition
+				var cursor types.Object
+				var over string
+				if fs.Cond != nil {
+					ast.Inspect(fs.Cond, func(z ast.Node) bool {
+						be, ok := z.(*ast.BinaryExpr)
+						if !ok {
+							return true
+						}
+						for _, pr := range [][2]ast.Expr{{be.X, be.Y}, {be.Y, be.X}} {
+							id, ok1 := ast.Unparen(pr[0]).(*ast.Ident)
+							ce, ok2 := ast.Unparen(pr[1]).(*ast.CallExpr)
+							if ok1 && ok2 && len(ce.Args) == 1 {
+								if fid, ok := ce.Fun.(*ast.Ident); ok && fid.Name == "len" {
+									cursor = info.Uses[id]
+									over = nospace(str(ce.Args[0]))
+								}
+							}
+						}
+						return true
+					})
+				}
+				if cursor == nil {
+					return true
+				}
+				ast.Inspect(fs.Body, func(z ast.Node) bool {
+					ce, ok := z.(*ast.CallExpr)
+					if !ok || len(ce.Args) < 1 {
+						return true
+					}
+					nm := calleeName(info, ce)
+					if nm != "bytes.IndexByte" && nm != "bytes.Index" && nm != "bytes.IndexAny" && nm != "bytes.IndexFunc" && nm != "bytes.IndexRune" {
+						return true
+					}
+					se, ok := ast.Unparen(ce.Args[0]).(*ast.SliceExpr)
+					if !ok || nospace(str(se.X)) != over || se.Low == nil {
+						return true
+					}
+					// the window starts at the cursor
+					starts := false
+					ast.Inspect(se.Low, func(w ast.Node) bool {
+						if id, ok := w.(*ast.Ident); ok && info.Uses[id] == cursor {
+							starts = true
+						}
+						return true
+					})
+					if !starts {
+						return true
+					}
+					n++
+					c.R.Check(se.High != nil, rule, fmt.Sprintf("%s.%s/search from the cursor#%d has a bounded window", pk.Name, load.FuncName(fd), n), c.pos(ce), "b[i:end]",
+						"the search runs over the whole rest of the slice ("+str(ce.Args[0])+") and is started again from later positions of the same loop: a long input without the byte searched for costs quadratic time")
+					return true
+				})
+				return true
+			})
+		}
+	}
+	c.R.Floor(rule, "forward searches from a loop cursor", n, 1)
+}
